@@ -291,9 +291,11 @@ func RunBehaviour(b *Behaviour, ks *sut.KeySet, workRoot string) (res BehResult)
 			}
 		}
 		if view != nil {
+			progress.phase = "positions and fetches"
 			compareC04(b, w, st, n, inst, scan, rows, view, add, &res)
 		}
 		if has(b.Oracles, "C01") && view != nil {
+			progress.phase = "rebuild and reopen"
 			compareC01(b, n, st, inst, dir, view, add, &res)
 		}
 		if has(b.Oracles, "C07") && (b.C07Every || n == len(b.Steps)) && view != nil {
@@ -807,6 +809,7 @@ func compareC07(b *Behaviour, n int, st *Step, inst *sut.Instance, dir string, s
 	}
 	nrec := len(scan.Recs)
 	for j := 0; j <= nrec; j++ {
+		progress.phase = fmt.Sprintf("re-index over the index of the first %d records", j)
 		res.Checks++
 		db := filepath.Join(scratch, fmt.Sprintf("pre-%d.sqlite", j))
 		if j == nrec {
@@ -981,8 +984,9 @@ func cmdReplay(args []string) int {
 	return 0
 }
 
-// behaviourTimeout bounds one behaviour including all projections; the code under test can
-// block inside a read issued by the projection (a stream goroutine that never finishes).
+// behaviourTimeout bounds the time WITHOUT PROGRESS (no new step, no new phase) of one behaviour including all
+// projections; the code under test can block inside a read issued by the projection (a stream goroutine that
+// never finishes). It is not a bound on the whole behaviour: long histories on a loaded machine take minutes.
 const behaviourTimeout = 3 * time.Minute
 
 var progress struct {
@@ -994,10 +998,20 @@ var progress struct {
 func runGuarded(b *Behaviour, ks *sut.KeySet, work string) BehResult {
 	done := make(chan BehResult, 1)
 	go func() { done <- RunBehaviour(b, ks, work) }()
-	select {
-	case r := <-done:
-		return r
-	case <-time.After(behaviourTimeout):
+	lastSeen, lastChange := progress, time.Now()
+	for {
+		select {
+		case r := <-done:
+			return r
+		case <-time.After(2 * time.Second):
+		}
+		if cur := progress; cur.step != lastSeen.step || cur.phase != lastSeen.phase {
+			lastSeen, lastChange = cur, time.Now()
+			continue
+		}
+		if time.Since(lastChange) < behaviourTimeout {
+			continue
+		}
 		r := BehResult{ID: b.ID, Steps: len(b.Steps), Hang: true, Findings: []Finding{}, Classes: []string{}}
 		r.Dump = goroutineDump()
 		for _, p := range []string{"C10", "C02"} {
